@@ -80,9 +80,9 @@ Record oracle := mkorc {
   o_Tsat : Q -> Q;                        (* _chemical.Tsat(P) *)
   o_lim_light : Q;                        (* bubble_point.Pmax (T,V) / Tmin (P,V; P,H; P,S) *)
   o_lim_heavy : Q;                        (* bubble_point.Pmin (T,V; T,H; T,S) / Tmax (P,V), dew_point.Tmax (P,H; P,S) *)
-  o_bubble : nat -> Q * vec;              (* BubblePoint.solve_Py / solve_Ty at this tick *)
-  o_dew : nat -> Q * vec;                 (* DewPoint.solve_Px / solve_Tx at this tick *)
-  o_v : nat -> vec;                       (* raw result of VLE._solve_v_fixed_point at this tick *)
+  o_bubble : nat -> Q -> Q * vec;         (* BubblePoint.solve_Py(z, T) / solve_Ty(z, P) at this tick, with the T or P it is passed *)
+  o_dew : nat -> Q -> Q * vec;            (* DewPoint.solve_Px(z, T) / solve_Tx(z, P) *)
+  o_v : nat -> Q -> Q -> vec;             (* raw result of VLE._solve_v_fixed_point(.., T, P, ..) at this tick *)
   o_iq : nat -> list Q * Q;               (* flx.IQ_interpolation: evaluation points, returned value *)
   o_xH : nat -> vst -> Q -> Q -> Q;       (* mixture.xH / xS (phase_data, T, P) *)
   o_Hp : nat -> bool -> vec -> Q -> Q -> Q; (* mixture.H / S (gas?, mol, T, P) *)
@@ -167,8 +167,8 @@ Definition set_flows (c : ctx) (v : vec) (s : vst) : vst :=
 Definition clip1 (v m : Q) : Q :=
   let v1 := if qltb m v then m else v in if qltb v1 0 then 0 else v1.
 Definition clipv (raw mol : vec) : vec := map2 clip1 (fit (length mol) raw) mol.
-Definition solve_v (orc : oracle) (c : ctx) (m : mach) : mach * vec :=
-  (tick m, clipv (o_v orc (mk m)) (molv c)).
+Definition solve_v (orc : oracle) (c : ctx) (T P : Q) (m : mach) : mach * vec :=
+  (tick m, clipv (o_v orc (mk m) T P) (molv c)).
 
 (* mask = a > mol; a[mask] = mol[mask] *)
 Definition capv (a mol : vec) : vec := map2 (fun x m => if qltb m x then m else x) a mol.
@@ -193,10 +193,10 @@ Definition call_Hp (orc : oracle) (m : mach) (gas : bool) (mol : vec) (T P : Q) 
   (tick m, o_Hp orc (mk m) gas mol T P).
 Definition call_solveT (orc : oracle) (m : mach) (H T P : Q) : mach * Q :=
   (tick m, o_solveT orc (mk m) (ms m) H T P).
-Definition call_bubble (orc : oracle) (c : ctx) (m : mach) : mach * (Q * vec) :=
-  (tick m, let (a, y) := o_bubble orc (mk m) in (a, fit (length (idx c)) y)).
-Definition call_dew (orc : oracle) (c : ctx) (m : mach) : mach * (Q * vec) :=
-  (tick m, let (a, x) := o_dew orc (mk m) in (a, fit (length (idx c)) x)).
+Definition call_bubble (orc : oracle) (c : ctx) (arg : Q) (m : mach) : mach * (Q * vec) :=
+  (tick m, let (a, y) := o_bubble orc (mk m) arg in (a, fit (length (idx c)) y)).
+Definition call_dew (orc : oracle) (c : ctx) (arg : Q) (m : mach) : mach * (Q * vec) :=
+  (tick m, let (a, x) := o_dew orc (mk m) arg in (a, fit (length (idx c)) x)).
 
 (* ---------- single-chemical branches ---------- *)
 (* _set_thermal_condition_chemical *)
@@ -271,7 +271,7 @@ Definition set_xy (cf : cfg) (orc : oracle) (bubble specT : bool) (sv : Q) (comp
   | SOk s c =>
     let m := mset m s in
     if negb (Nat.eqb (cN c) 2) then VErr VAssert m else
-    let (m, r) := if bubble then call_bubble orc c m else call_dew orc c m in
+    let (m, r) := if bubble then call_bubble orc c sv m else call_dew orc c sv m in
     let (a, other) := r in
     let m := mset m (if specT then with_T (with_P (ms m) a) sv else with_P (with_T (ms m) a) sv) in
     if bubble then lever c comp other m else lever c other comp m
@@ -286,25 +286,25 @@ Definition set_TP (cf : cfg) (orc : oracle) (T P : Q) (m : mach) : vres mach :=
     let m := mset m (with_P (with_T s T) P) in
     if Nat.eqb (cN c) 0 then VOk m else
     if Nat.eqb (cN c) 1 then VOk (mset m (tp_chemical orc c (ms m) T P)) else
-    let (m, d) := call_dew orc c m in
+    let (m, d) := call_dew orc c T m in
     let (P_dew, x_dew) := d in
     if qleb P P_dew && negb (nzb (Fheavy c)) then VOk (mset m (all_vap c (ms m))) else
-    let (m, b) := call_bubble orc c m in
+    let (m, b) := call_bubble orc c T m in
     let (P_bub, y_bub) := b in
     if qleb P_bub P && negb (nzb (Flight c)) then VOk (mset m (all_liq c (ms m))) else
     let dP := P_bub - P_dew in
     let V := if qltb 1 dP then (P - P_dew) / dP else 1 # 2 in
     if refresh_K_raises c V y_bub x_dew then VErr VArith m else
-    let (m, v) := solve_v orc c m in
+    let (m, v) := solve_v orc c T P m in
     VOk (mset m (set_flows c v (ms m)))
   end.
 
 (* the evaluations a bracketing solver makes of _V_err_at_P / _V_err_at_T:
    each one is a _solve_v call whose result stays in self._v *)
-Fixpoint evals_v (orc : oracle) (c : ctx) (pts : list Q) (m : mach) (vlast : vec) : mach * vec :=
+Fixpoint evals_v (orc : oracle) (c : ctx) (isT : bool) (a : Q) (pts : list Q) (m : mach) (vlast : vec) : mach * vec :=
   match pts with
   | [] => (m, vlast)
-  | _ :: t => let (m, v) := solve_v orc c m in evals_v orc c t m v
+  | x :: t => let (m, v) := (if isT then solve_v orc c a x m else solve_v orc c x a m) in evals_v orc c isT a t m v
   end.
 
 (* set_TV (isT = true) and set_PV (isT = false): the part after the N = 0 / N = 1 tests.
@@ -318,34 +318,36 @@ Definition set_other (isT : bool) (s : vst) (x : Q) : vst :=
 
 Definition set_XV_multi (orc : oracle) (c : ctx) (isT : bool) (V0 : Q) (m : mach) : vres mach :=
   let V := adj_V c V0 in
+  let a := if isT then sT (ms m) else sP (ms m) in      (* the specified member: self._T (T,V) / self._P (P,V) *)
+  let sv := fun (x : Q) (m : mach) => if isT then solve_v orc c a x m else solve_v orc c x a m in
   if qeqb V 1 && (isT || negb (nzb (Fheavy c))) then
-    let (m, d) := call_dew orc c m in
+    let (m, d) := call_dew orc c a m in
     VOk (mset m (set_other isT (all_vap c (ms m)) (fst d)))
   else if qeqb V 0 && (isT || negb (nzb (Flight c))) then
-    let (m, b) := call_bubble orc c m in
+    let (m, b) := call_bubble orc c a m in
     VOk (mset m (set_other isT (all_liq c (ms m)) (fst b)))
   else
-    let (m, b) := call_bubble orc c m in
-    let (m, d) := call_dew orc c m in
+    let (m, b) := call_bubble orc c a m in
+    let (m, d) := call_dew orc c a m in
     let (X_bub, y_bub) := b in
     let (X_dew, x_dew) := d in
     if refresh_K_raises c V y_bub x_dew then VErr VArith m else
     let X_bub := if nzb (Flight c) then c_01 * o_lim_light orc + c_09 * X_bub else X_bub in
     let X_dew := if nzb (Fheavy c) then c_01 * o_lim_heavy orc + c_09 * X_dew else X_dew in
-    let (m, vb) := solve_v orc c m in
+    let (m, vb) := sv X_bub m in
     let V_bub := qsum vb / Fvle c in
     let '(m, v, X) :=
       if qltb V V_bub then
         (m, capv (vscale (Fmol c * V) y_bub) (molv c), X_bub)
       else
-        let (m, vd) := solve_v orc c m in
+        let (m, vd) := sv X_dew m in
         let V_dew := qsum vd / Fvle c in
         if qltb V_dew V then
           let l := capv (vscale (Fmol c * (1 - V)) x_dew) (molv c) in
           (m, vsub (molv c) l, X_dew)
         else
           let (pts, X) := o_iq orc (mk m) in
-          let (m, v) := evals_v orc c pts (tick m) vd in
+          let (m, v) := evals_v orc c isT a pts (tick m) vd in
           (m, v, X) in
     let m := mset m (set_flows c v (set_other isT (ms m) X)) in
     (* try: self._H_hat = mixture.xH(...) / F_mass; except: pass *)
@@ -376,7 +378,7 @@ Definition set_PV (cf : cfg) (orc : oracle) (P V : Q) (m : mach) : vres mach :=
 (* one evaluation of _H_hat_err_at_T/P or _S_hat_err_at_T/P: _solve_v, set_flows, xH;
    returns H_hat = xH / F_mass *)
 Definition herr_eval (orc : oracle) (c : ctx) (T P : Q) (m : mach) : mach * Q :=
-  let (m, v) := solve_v orc c m in
+  let (m, v) := solve_v orc c T P m in
   let m := mset m (set_flows c v (ms m)) in
   let (m, h) := call_xH orc m T P in
   (m, h / Fmass c).
@@ -398,13 +400,13 @@ Definition set_TH (cf : cfg) (orc : oracle) (T H : Q) (m : mach) : vres mach :=
     let m := mset m s in
     if Nat.eqb (cN c) 0 then VErr VRuntime m else
     if Nat.eqb (cN c) 1 then th_chemical orc c m T H else
-    let (m, d) := call_dew orc c m in
+    let (m, d) := call_dew orc c T m in
     let (P_dew, x_dew) := d in
     let P_dew := if nzb (Fheavy c) then (1#2) * P_dew + (1#2) * o_lim_heavy orc else P_dew in
     let m := mset m (all_vap c (ms m)) in
     let (m, H_dew) := call_xH orc m T P_dew in
     if qleb 0 (H - H_dew) then VErr VNotImpl m else
-    let (m, b) := call_bubble orc c m in
+    let (m, b) := call_bubble orc c T m in
     let (P_bub, y_bub) := b in
     let P_bub := if nzb (Flight c) then 2 * P_bub else P_bub in
     let m := mset m (all_liq c (ms m)) in
@@ -467,7 +469,7 @@ Definition set_PH (cf : cfg) (orc : oracle) (ent : bool) (P H : Q) (m : mach) : 
     if Nat.eqb (cN c) 0 then
       let (m, T') := call_solveT orc m H (sT (ms m)) P in VOk (mset m (with_T (ms m) T'))
     else if Nat.eqb (cN c) 1 then VOk (ph_chemical orc c m P H) else
-    let (m, b) := call_bubble orc c m in
+    let (m, b) := call_bubble orc c P m in
     let (T_bub, y_bub) := b in
     let T_bub := if nzb (Flight c) then c_09 * T_bub + c_01 * o_lim_light orc else T_bub in
     let m := mset m (all_liq c (ms m)) in
@@ -476,7 +478,7 @@ Definition set_PH (cf : cfg) (orc : oracle) (ent : bool) (P H : Q) (m : mach) : 
     if qleb dH_bub 0 then
       let (m, T') := call_solveT orc m H T_bub P in VOk (mset m (with_T (ms m) T'))
     else
-    let (m, d) := call_dew orc c m in
+    let (m, d) := call_dew orc c P m in
     let (T_dew, x_dew) := d in
     let '(T_dew, T_bub) := if qleb T_dew T_bub then (T_bub + (1#2), T_dew - (1#2)) else (T_dew, T_bub) in
     let T_dew := if nzb (Fheavy c) then c_09 * T_dew + c_01 * o_lim_heavy orc else T_dew in
@@ -697,6 +699,13 @@ Definition sle_check (r : res sst) (expect : sst) (raised : bool) : bool :=
   | _, _ => false
   end.
 
+(* tapes that also check the arguments the oracle was called with (to 1e-9: the implementation computes them in floats);
+   a call with other arguments gets the default *)
+Definition tape1 {A} (d : A) (l : list (nat * Q * A)) (k : nat) (x : Q) : A :=
+  match find (fun p => Nat.eqb (fst (fst p)) k && qapproxb (snd (fst p)) x) l with Some p => snd p | None => d end.
+Definition tape2 {A} (d : A) (l : list (nat * Q * Q * A)) (k : nat) (x y : Q) : A :=
+  match find (fun p => Nat.eqb (fst (fst (fst p))) k && qapproxb (snd (fst (fst p))) x && qapproxb (snd (fst p)) y) l with
+  | Some p => snd p | None => d end.
 (* a tape as a function of the tick *)
 Definition tape {A} (d : A) (l : list (nat * A)) (k : nat) : A :=
   match find (fun p => Nat.eqb (fst p) k) l with Some p => snd p | None => d end.
